@@ -102,6 +102,10 @@ class Printer:
                 self.t(fmt_num(v))
         elif k == "str":
             self.t(quote(e[1], self.q))
+        elif k == "mlstr":
+            # a string literal written with real line breaks inside it
+            q = self.q
+            self.t(q + e[1].replace("\\", "\\\\").replace(q, "\\" + q) + q)
         elif k == "nil":
             self.t("nil")
         elif k == "true":
